@@ -1039,6 +1039,9 @@ func (fr *Frame) binop(x *ssa.BinOp, st *State, reach string) {
 	case token.SUB:
 		if isFloat {
 			term = "(fp.sub RNE " + a.T + " " + b.T + ")"
+		} else if c, ok := constInt(x.Y); ok && c >= 0 && c <= 1<<31 && isLenCall(x.X) {
+			// len(..) - c with a small non-negative constant cannot wrap (0 <= len < 2^63): keep the term linear
+			term = "(- " + a.T + " " + b.T + ")"
 		} else {
 			term = wrapInt(x.Type(), "(- "+a.T+" "+b.T+")")
 		}
@@ -1120,6 +1123,16 @@ func (fr *Frame) binop(x *ssa.BinOp, st *State, reach string) {
 		term = fc.B.Fresh("binop", fc.B.SortOf(x.Type()))
 	}
 	fr.define(x, term)
+}
+
+// isLenCall: v is the result of the builtin len (an int in [0, 2^63))
+func isLenCall(v ssa.Value) bool {
+	c, ok := v.(*ssa.Call)
+	if !ok {
+		return false
+	}
+	b, ok := c.Call.Value.(*ssa.Builtin)
+	return ok && b.Name() == "len"
 }
 
 func isNilConst(v ssa.Value) bool {
